@@ -1,0 +1,40 @@
+//go:build verif
+
+package pogreb
+
+// Contracts for iterator.go and the copy helper (GoVC, see /verif/DESIGN.md). Comment-only file.
+
+//@ func cloneBytes(src []byte) (dst []byte) [C11,C14]
+//@   ensures fresh: fresh(dst) && len(dst) == len(src) && (len(src) > 0 ==> arr(dst) != 0)
+//@   ensures same: sameBytes(contents(dst), off(dst), contents(src), off(src), len(src))
+
+// INV-LOG (index side), assumed by the readers below and established by nobody yet: every non-empty slot stored in
+// an index file designates a complete record inside an open segment. A slot occupies 16 bytes at position q:
+// hash u32, segment id u16 (q+4), key size u16 (q+6), value size u32 (q+8), record offset u32 (q+12).
+// (p is the position of the record-offset field of the slot, q = p-12 the position of the slot: the quantifier
+// ranges over p so that the first byte read has the bound variable as its index)
+//@ spec func slotPos(q int64, n int64) bool = q >= 512 && q + 16 <= n && (q & 511) <= 480 && q & 15 == 0
+//@ spec func slotInSegAt(dl *datalog, m mem, q int64) bool = le16(m, int(q)+4) < 32767 && dl.segments[le16(m, int(q)+4)] != nil && le32(m, int(q)+12) >= 512 && le32(m, int(q)+8) <= 0x7fffffff && int64(le32(m, int(q)+12)) + 10 + int64(le16(m, int(q)+6)) + int64(le32(m, int(q)+8)) <= dl.segments[le16(m, int(q)+4)].file.size
+//@ spec func opaque slotsInLog(m mem, n int64, dl *datalog) bool = forall p int64 :: slotPos(p - 12, n) && le32(m, int(p)) != 0 ==> slotInSegAt(dl, m, p - 12)
+//@ spec func idxInLog(db *DB) bool = slotsInLog(fData[fidOf[db.index.main.File]], db.index.main.size, db.datalog) && slotsInLog(fData[fidOf[db.index.overflow.File]], db.index.overflow.size, db.datalog)
+
+// fetchItems drains exactly one bucket chain: it returns nil only at the end of the chain, and what it queues are
+// fresh copies of the stored key and value of each non-empty slot it passed.
+//@ func (it *ItemIterator) fetchItems(nextBucketIdx uint32) (err error) [C11,C14]
+//@   requires inv: it.db != nil && dbFull(it.db) && idxInLog(it.db) && nextBucketIdx < it.db.index.numBuckets
+//@   ensures [C14] fresh: forall j int :: old(len(it.queue)) <= j && j < len(it.queue) ==> fresh(it.queue[j].key) && fresh(it.queue[j].value)
+//@   ensures err: err != nil ==> isIOErr(err) || err == io.EOF
+//@   at return: assert [C11] whole-chain: err == nil ==> bit.off == 0
+//@   at call readKeyValue@1: cases which-file: b.file == it.db.index.main || b.file == it.db.index.overflow
+//@   at call readKeyValue@1: hint slot-on-disk: slotEncoded(fData[fidOf[b.file.File]], int(b.offset)+16*i, sl) && bucketAt(b.offset, b.file.size) && sl.offset != 0
+//@   at call readKeyValue@1: hint slot-position: slotPos(b.offset + 16*int64(i), b.file.size)
+//@   modifies it.queue, elems(item)
+//@   loop 1:
+//@     invariant it == old(it) && bit != nil && fresh(bit) && bit.overflow == it.db.index.overflow
+//@     invariant bit.off == 0 || (bit.f == it.db.index.main && bucketAt(bit.off, it.db.index.main.size)) || (bit.f == it.db.index.overflow && bucketAt(bit.off, it.db.index.overflow.size))
+//@     invariant forall j int :: old(len(it.queue)) <= j && j < len(it.queue) ==> fresh(it.queue[j].key) && fresh(it.queue[j].value)
+//@     modifies bit.off, bit.f, it.queue, elems(item)
+//@   loop 2:
+//@     invariant 0 <= i && i <= 31 && it == old(it)
+//@     invariant forall j int :: old(len(it.queue)) <= j && j < len(it.queue) ==> fresh(it.queue[j].key) && fresh(it.queue[j].value)
+//@     modifies it.queue, elems(item)
